@@ -11,8 +11,14 @@ cp /verif/runner/main.ml $ext/runner_main.ml; cp /verif/runner/util.ml $ext/util
 ocamlfind ocamlopt -O3 -package str -linkpkg -w -a \
   Datatypes.mli Datatypes.ml Nat.mli Nat.ml PeanoNat.mli PeanoNat.ml BinNums.mli BinNums.ml \
   BinPosDef.mli BinPosDef.ml BinPos.mli BinPos.ml BinNat.mli BinNat.ml List.mli List.ml \
-  Base.mli Base.ml Arena.mli Arena.ml Keys.mli Keys.ml Ctors.mli Ctors.ml Rodeo.mli Rodeo.ml Conc.mli Conc.ml util.ml runner_main.ml -o /verif/build/bin/runner 2>&1 | grep -v "^$" | head -30
+  Base.mli Base.ml Arena.mli Arena.ml Keys.mli Keys.ml Ctors.mli Ctors.ml Rodeo.mli Rodeo.ml Conc.mli Conc.ml util.ml runner_main.ml -o /verif/build/bin/.runner.new.$$ 2>&1 | grep -v "^$" | head -30
 ocamlfind ocamlopt -O3 -package str -linkpkg -w -a \
   Datatypes.cmx Nat.cmx PeanoNat.cmx BinNums.cmx BinPosDef.cmx BinPos.cmx BinNat.cmx List.cmx \
-  Base.cmx Arena.cmx Keys.cmx Ctors.cmx Rodeo.cmx Conc.cmx util.cmx creplay_main.ml -o /verif/build/bin/creplay 2>&1 | grep -v "^$" | head -30
+  Base.cmx Arena.cmx Keys.cmx Ctors.cmx Rodeo.cmx Conc.cmx util.cmx creplay_main.ml -o /verif/build/bin/.creplay.new.$$ 2>&1 | grep -v "^$" | head -30
+# install atomically (other processes run these binaries while we build): never leave a broken binary
+for b in runner creplay; do
+  if [ -x /verif/build/bin/.$b.new.$$ ]; then mv -f /verif/build/bin/.$b.new.$$ /verif/build/bin/$b
+  else echo "build.sh: $b failed to build, keeping the old binary" >&2; rm -f /verif/build/bin/.$b.new.$$; fail=1; fi
+done
 ls -la /verif/build/bin/runner
+[ -z "$fail" ]
